@@ -298,3 +298,62 @@ CHECKS["C11"]["manifest_text"] = ("Lean theorems over the whole interpreter, for
 CHECKS["C11"]["manifest_note"] = "The model returns an explicit error at each remaining index site of the real code (stale key = slotKey, disposed signal = disposed); reachable_errors shows nothing else can happen. RefCell double borrows are not modelled (they would show up as panic class `borrow` in the correspondence)."
 CHECKS["C11"]["status"] = "C11_total proved over the model: invariants preserved by every operation of every program, only documented panics"
 CHECKS["C11"]["partial"] = []
+
+RC = "SycVerif.Reconcile."
+CHECKS["C06"] = {
+    "manifest_text": "Lean theorem C06_reconcile over a model of reconcile_fragments (udomdiff port: append, remove, common prefix/suffix, swap, map fallback with insert-run / replaceChild / skip / remove) with insertBefore, removeChild, replaceChild and nextSibling specified as in the DOM standard: for EVERY pair of node sequences a (non-empty) and b without duplicates and arbitrary siblings pre/post around the region, the routine never fails and turns the children pre ++ a ++ post into exactly pre ++ b ++ post — the region is b in order, retained nodes are the very same nodes, removed ones are detached, siblings untouched (C06_reconcile, C06_retained_same_nodes, C06_never_fails, C06_idempotent); C06_region: the way Keyed/Indexed call it (nodes between the markers + end marker). Composed in the driver with the proved list-mapping model (C07) to model Keyed/Indexed: retained keys keep their nodes. Tied to /repo by running the REAL reconcile_fragments (through an add-only wrapper) and the real Keyed/Indexed components on an in-process DOM (shim crates replacing web-sys/js-sys/wasm-bindgen) and comparing children order, identity and content after every update with the model.",
+    "manifest_note": "Trusted: the in-process DOM written for this task (shim/web-sys; method semantics from the WHATWG DOM text, 15 unit tests) stands for the browser; cfg(sycamore_verif_dom) switches sycamore-web to the DOM back end on the native target. The composition Keyed = map_keyed + reconcile is in the driver (executable), not a separate Lean theorem.",
+    "lean_modules": ["SycVerif.Props.C06", "SycVerif.Props.C07"],
+    "theorems": [RC + n for n in ["C06_reconcile", "C06_region", "C06_retained_same_nodes", "C06_idempotent", "C06_never_fails", "C06_clear"]]
+                + [LM + "mapKeyed_spec", LM + "mapIndexed_spec"],
+    "engines": [{"harness": "dom", "engine": "dom"}],
+    "classes": ["dom-reconcile", "dom-reconcile-panic", "dom-list", "dom-identity", "dom-list-panic", "dom-list-stale-item"],
+    "status": "full statement proved over the model for the diffing routine (all pairs, all siblings); Keyed/Indexed = proved list mapping + proved reconcile, composed executably",
+    "partial": [{"theorem": "keyed_region (composition as a Lean theorem)", "missing": "one statement chaining mapKeyed_spec and C06_region over histories; today the chain is executed by the driver and compared with the real components"}],
+    "rule": "exhaustive: every ordered pair (a, b) of duplicate-free sequences over 5 (quick) / 6 (thorough) node names up to length 4 / 5, a non-empty, with 0-2 siblings on each side (4 sibling layouts), every third pair additionally with a shared end marker (the Keyed/Indexed calling convention); nodes are a mix of elements, text nodes and comments; 4000 (quick) / 60000 (thorough) random chains of 3-7 list updates through the real Keyed and Indexed components (every 9th with duplicate keys), every 4th chain replayed with item views that are dynamic at their top level and toggled between updates. distinct = distinct request line; non-trivial = a and b non-empty and different / more than one update",
+    "exhaustive_blocks_quick": "all (a,b) over 5 names, |a|,|b| <= 4 (56k calls of the real routine)", "exhaustive_blocks_thorough": "all (a,b) over 6 names, |a|,|b| <= 5",
+    "trusted": ["in-process DOM (shim/web-sys) instead of a browser; see shim/README.md", "hooks: cfg(sycamore_verif_dom) back-end selection, add-only pub fn __verif_reconcile_fragments"],
+    "assumptions": ["a and b are duplicate-free, new nodes of b are not already siblings outside the region (true for Keyed/Indexed)"],
+}
+AS = "SycVerif.Async."
+_async_rule = ("suspense: 9 boundary/scope/task shapes x EVERY completion order of their await points (exhaustive up to 5 (quick) / 6 (thorough) events); 4 shapes x a dispose of every scope inserted between every two steps of a completion schedule; 2500 (quick) / 60000 (thorough) random trees (<= 7 items, depth <= 3, tasks with 1-3 await points) with shuffled completions and 0-2 disposals. resources: EVERY event sequence over {write, finish 1..4} up to length 5 (quick) / 6 (thorough), every 9th with the owning scope disposed at a random point. Real tokio current-thread LocalSet; every await point is a oneshot completed by the harness; after each event the executor is drained and is_loading of every live boundary, use_is_loading_global, the bodies' resume log and any panic inside the executor are observed. distinct = distinct request line; non-trivial = at least two events")
+_async_trusted = ["tokio LocalSet, futures::Abortable and wakers are NOT modelled: the model assumes an aborted task is never polled again and is dropped at the next executor turn, and that completing an await point resumes a live task exactly once; the correspondence exercises exactly these assumptions on the real executor",
+                  "the reactive layer under the suspense counters (selectors, effects) is covered by C01-C04"]
+CHECKS["C13"] = {
+    "manifest_text": "Lean theorems over an event-level machine of suspense boundaries, scopes and tasks, for EVERY tree of boundaries/scopes/tasks and EVERY event order: in every reachable state each live counter equals the number of unfinished tasks registered at its boundary (C13_remaining_eq_unfinished), a boundary reports loading exactly while an unfinished task is registered at it or at an enclosing boundary (C13_isLoading_iff), completions commute — any two orders of the same completions end in the same counters and loading flags (C13_order_independent) —, once every await point of every task has completed nothing is loading (C13_all_done), and use_is_loading_global is true iff some live counter is positive (C13_global, D9 repaired). Tied to /repo by running real create_suspense_scope / create_suspense_task / SuspenseScope::is_loading on a real tokio executor for every completion order of the enumerated shapes and comparing with the machine after every event.",
+    "manifest_note": "Partial: the blocking and streaming SSR clauses (render_to_string_await_suspense returns only when all tasks finished; streaming emits each boundary once, parent first, and equals the blocking result) are not modelled yet; the reactive-level clause is fully covered. Executor behaviour is assumed (see trusted base).",
+    "lean_modules": ["SycVerif.Props.C13"],
+    "theorems": [AS + n for n in ["C13_reach_invariants", "C13_remaining_eq_unfinished", "C13_remaining_eq_unfinished_run", "C13_isLoading_iff", "C13_global",
+                                  "C13_complete_comm", "C13_order_independent", "C13_order_independent_obs", "C13_all_done", "C13_all_done_build", "C13_task_counter_alive"]],
+    "engines": [{"harness": "native", "engine": "async"}],
+    "classes": ["suspense-loading", "async-panic"],
+    "status": "reactive-level statement proved for all trees and all schedules; SSR blocking/streaming clauses not modelled",
+    "partial": [{"theorem": "blocking_returns_iff_all_done / stream_once / stream_parent_first / stream_equals_blocking", "missing": "model of render_to_string_await_suspense and render_to_string_stream over the machine"}],
+    "rule": _async_rule, "trusted": _async_trusted, "assumptions": ["every task has at least one await point (a task without await points completes at spawn)"],
+}
+CHECKS["C14"] = {
+    "manifest_text": "Lean theorems over the same machine, for EVERY tree and EVERY placement of scope disposals between executor steps: after dispose(s) no body of a task spawned in the subtree of s ever resumes again, in any continuation (C14_no_poll_after_dispose: holds from every state), the disposed tasks are cancelled and dropped at the next executor turn and nothing else changes (C14_dispose_cancels/others), every surviving counter equals the number of its still-pending tasks — the guards held by cancelled tasks are released — and a boundary with no pending task under it or its ancestors is not loading (C14_survivor_released, C14_survivor_not_loading), a disposed counter is left alone (repair D5), disposal is idempotent (C14_dispose_idempotent/twice). Totality: the machine has no error outcome; on the real code every event runs under a panic hook that also sees panics swallowed by the executor. Crash-point enumeration on the real tokio executor: a dispose of every scope between every two steps.",
+    "manifest_note": "Partial by nature: that tokio drops an aborted task at its next poll and that Abortable checks the flag before polling the inner future are assumptions of the model, validated only by the correspondence (poll log of instrumented futures).",
+    "lean_modules": ["SycVerif.Props.C14"],
+    "theorems": [AS + n for n in ["C14_subtree_iff", "C14_dispose_scopes", "C14_complete_polls", "C14_complete_not_pending", "C14_dispose_polls", "C14_dispose_cancels",
+                                  "C14_dispose_others", "C14_no_poll_after_dispose", "C14_survivor_released", "C14_survivor_released_delta",
+                                  "C14_survivor_not_loading", "C14_dispose_idempotent", "C14_disposed_dead", "C14_dispose_twice"]],
+    "engines": [{"harness": "native", "engine": "async"}],
+    "classes": ["poll-after-dispose", "async-panic", "suspense-loading"],
+    "status": "machine-level statement proved in full; executor assumptions validated by correspondence only",
+    "partial": [{"theorem": "executor semantics", "missing": "tokio/Abortable behaviour is assumed, not modelled"}],
+    "rule": _async_rule, "trusted": _async_trusted, "assumptions": [],
+}
+CHECKS["C15"] = {
+    "manifest_text": "Lean theorems over the resource machine (create_isomorphic_resource(on(dep, fetch))): for EVERY sequence of dependency writes and fetch completions (including completions that never happen and repeated ones): the value is exactly the result of the most recent fetch that completed while it was the latest, with the dependency value it was started for, characterised declaratively from the event history (C15_value_is_latest_completed', lastDelivered_iff); an older in-flight fetch can never overwrite it and a completion delivers at most once (C15_older_fetch_cannot_overwrite, C15_finish_idempotent); a write leaves the previous value readable and sets loading (C15_previous_value_readable, C15_write_loading); is_loading is true exactly while the latest fetch is outstanding (C15_loading_iff_latest_outstanding). Tied to /repo by driving the real resource on a real tokio executor through EVERY event sequence up to length 5/6 with oneshot-gated fetch futures and comparing value and is_loading after every event.",
+    "manifest_note": "The abort of the previous fetch (effect re-run -> cleanup -> AbortHandle) is abstracted to 'an older fetch can deliver nothing'; that the real code behaves so is what the exhaustive correspondence shows.",
+    "lean_modules": ["SycVerif.Props.C15"],
+    "theorems": [AS + n for n in ["C15_invariants", "C15_value_is_latest_completed", "C15_value_iff", "C15_depOf", "lastDelivered_iff", "C15_value_is_latest_completed'",
+                                  "C15_older_fetch_cannot_overwrite", "C15_older_fetch_cannot_overwrite'", "C15_finish_idempotent", "C15_previous_value_readable",
+                                  "C15_write_loading", "C15_loading_iff_latest_outstanding", "C15_loading_iff_value_stale"]],
+    "engines": [{"harness": "native", "engine": "async"}],
+    "classes": ["resource-latest", "async-panic"],
+    "status": "machine-level statement proved in full",
+    "partial": [], "rule": _async_rule, "trusted": _async_trusted, "assumptions": [],
+    "exhaustive_blocks_quick": "all event sequences over {write, finish 1..4} of length <= 5 (3906)", "exhaustive_blocks_thorough": "length <= 6 (19531)",
+}
